@@ -88,12 +88,12 @@ pub fn run(op: &str, args: &[&str]) -> Option<String> {
             let s = String::from_utf8(unhex(h)?).ok()?;
             Some(match PrivateKey::from_str(&s) {
                 Ok(k) => format!("OK {}", show_hex(&k.to_bytes())),
-                Err(_) => "ERR".to_string(),
+                Err(e) => crate::err_shown(&e),
             })
         }
         ("sk_dec", [h]) => Some(match deserialize_partial::<PrivateKey>(&unhex(h)?) {
             Ok((k, n)) => format!("OK {} {}", show_hex(&k.to_bytes()), n),
-            Err(_) => "ERR".to_string(),
+            Err(e) => crate::err_shown(&e),
         }),
         ("pk", [h]) => {
             let b = unhex(h)?;
@@ -145,12 +145,12 @@ pub fn run(op: &str, args: &[&str]) -> Option<String> {
             let s = String::from_utf8(unhex(h)?).ok()?;
             Some(match PublicKey::from_str(&s) {
                 Ok(k) => format!("OK {}", show_hex(&k.to_bytes())),
-                Err(_) => "ERR".to_string(),
+                Err(e) => crate::err_shown(&e),
             })
         }
         ("pk_dec", [h]) => Some(match deserialize_partial::<PublicKey>(&unhex(h)?) {
             Ok((k, n)) => format!("OK {} {}", show_hex(&k.to_bytes()), n),
-            Err(_) => "ERR".to_string(),
+            Err(e) => crate::err_shown(&e),
         }),
         ("pkop", ["add", x, y]) => {
             let (p, q) = (pk!(x), pk!(y));
